@@ -126,6 +126,14 @@ CHECKS = {
    note=TB + 'PARTIAL by nature: memory safety is observed (process status, ASan/UBSan reports in the thorough tier), not proved; the theorems cover the depth accounting and the bounds discipline of the list/dict loops. Cyclic structures are not objects of the inductive model: the theorem covers their unrollings (the traversal never looks deeper than MAX+2). '
         'Found and fixed by this check: F16 (forged pickle states crashed the process). prefix_errors is pure Python recursion and is not required to raise at the same depth.',
    design='§7 C16'),
+ 'C17': dict(
+   technique='Coq proof (GIL + mutex state machine: invariant and progress over all schedules; multiset conservation for the shared iterator) + translator (lock scopes extracted from the C++ sources on every run, decided by the extracted Conc.wf) + cooperative-scheduler, iterator, registration and preemptive-soak oracles in forked children with a kernel watchdog',
+   text='Theorems: for any number of threads, any thread programs that obey the lock discipline (no Python code while an engine mutex is held; every mutex released) and EVERY schedule (every choice of GIL holder at every callback and thread exit) no reachable state is a deadlock; a callback under a held mutex deadlocks under some schedule (refuted variant); '
+        'for any number of consumers and every interleaving of the shared leaf iterator\'s take / hand-out steps, delivered + held + remaining is a permutation of the initial agenda, hence each leaf is delivered at most once and none is lost, and the pop-after-callback variant delivers a leaf twice; a second registration of a registered (type, namespace) fails in every sequence of registry steps. '
+        'The run re-extracts all 27 engine-mutex scopes (and the functions called under the registry lock) from the C++ sources with a fail-closed call classifier and evaluates Conc.wf on each; parks a thread inside each of 21 Python-level callbacks the engine reaches (is_leaf, custom flatten/unflatten, mapped function, key __lt__/__hash__/__eq__/__repr__/__reduce__, metadata __eq__/__repr__, traverse visitors, metaclass attribute hooks during classification at flatten and at registration, warning hook) while a second thread runs each of 20 operations to completion (420 schedules), comparing both results with solo runs; '
+        'parks one consumer of a shared iterator at each of its positions while another drains it, plus preemptive consumers; overlaps same-key registrations inside the classification hook and across 8 threads; overlaps a flatten with unregister / re-register; and soaks 8 (thorough 16) threads at a 1e-6 s switch interval against solo results while a thread registers and unregisters unrelated types.',
+   note=TB + 'PARTIAL by nature: the theorems are about the discipline and the iterator protocol; that the code follows them is decided by the translator (trusted: harness/lockscan.py, its allow-list of calls that cannot run Python code, the exemption of the atexit Clear()) and by the schedules the oracles enumerate (callback granularity, 2 threads; preemptive runs are sampling). Only the GIL build is covered (#ifdef Py_GIL_DISABLED code is stripped). The dict-order mode switch is excluded by the property.',
+   design='§7 C17'),
  'C18': dict(
    technique='Coq proof (recognisers as functions of class traits, equal on every trait vector; cache invariant over all histories with address reuse) + model correspondence on a generated class universe + twin-vs-twin oracle',
    text='Theorems: the repaired Python namedtuple recogniser equals the engine\'s on every trait vector (refuted for the unchanged twin, defect F6); the struct-sequence recognisers agree whenever the n_* counters are not instances of a proper int subclass, and on every class definable in Python; '
